@@ -51,6 +51,7 @@ def xspec(spec, rng):
     xs = dict(spec)
     xs["tags"] = tags
     xs["terms"] = terms
+    xs["late_tags"] = [t for t in terms if rng.random() < 0.2]
     xs["K"] = [rng.randrange(50) for _ in spec["rules"]]
     xs["coef"] = [[rng.randrange(1, 10) for _ in r["rhs"]] for r in spec["rules"]]
     xs["form"] = [rng.choice([0, 0, 1, 2, 3]) for _ in spec["rules"]]
@@ -127,13 +128,23 @@ def render_x(xs, target, pkg, obj, trace):
         actions = ["Steps++; if (Steps > %d) { throw new Error(\"STEPLIMIT\") }; Log.push(%s); %s" %
                    (STEP_LIMIT, "reduceIndex" if xs.get("log_by_param") else str(i + 1), _assign(xs, i)) for i in range(len(xs["rules"]))]
     out = ["%{\n" + prologue + "\n%}\n", "%union {\n" + union + "\n}\n"]
+    # some terms get their value tag in a LATER %token line of their own: a named token after `%token NAME [number]`,
+    # a literal after the precedence line that first mentions it
+    in_prec = set(x for _, syms in xs.get("prec", []) for x in syms)
+    late = [t for t in xs.get("late_tags", []) if not t.startswith("'") or t in in_prec]
     for t in xs["terms"]:
         num = xs.get("nums", {}).get(t)
+        if t in late:
+            if not t.startswith("'"):
+                out.append("%%token %s%s\n" % (t, (" %d" % num) if num else ""))
+            continue
         out.append("%%token <%s> %s%s\n" % (tags[t], t, (" %d" % num) if num else ""))
     for n in xs["nts"]:
         out.append("%%type <%s> %s\n" % (tags[n], n))
     for kind, syms in xs.get("prec", []):
         out.append("%%%s %s\n" % (kind, " ".join(syms)))
+    for t in late:
+        out.append("%%token <%s> %s\n" % (tags[t], t))
     out.append("%%start %s\n%%%%\n" % xs["start"])
     last = None
     for i, r in enumerate(xs["rules"]):
@@ -159,23 +170,37 @@ var Log []int
 var Req int
 var Steps int
 var codes = []int{%s}
-func GetToken(input string, valTy *ValType, pos *int) int {
-	Req++
-	if *pos >= len(input) { return -1 }
-	c := int(input[*pos] - 'a')
-	*valTy = ValType{a: *pos + 1, b: 2*(*pos) + 1}
-	*pos++
+var pend = -1    // a token read ahead by the lexer: delivered by the next call, when *pos is already at the end
+var pendPos = 0
+func codeOf(c int) int {
 	if c < 0 || c >= len(codes) {
 		// 'y' and 'x' are codes just above the largest token code (where the generator numbers its
 		// nonterminals); every other unknown letter is 9999
 		if (c == 24 || c == 23) && len(codes) > 0 { m := codes[0]; for _, v := range codes { if v > m { m = v } }; return m + 25 - c }
 		if c == 22 { return 0 } // 'w': the code 0 that example lexers return for an unknown character
+		if c == 21 { return -2 } // 'v': a negative code other than the end marker (e.g. a lexer's own error code)
 		return 9999
 	}
 	return codes[c]
 }
+func GetToken(input string, valTy *ValType, pos *int) int {
+	Req++
+	if pend >= 0 {
+		c := pend; pend = -1
+		*valTy = ValType{a: pendPos + 1, b: 2*pendPos + 1}
+		return codeOf(c)
+	}
+	if *pos >= len(input) { return -1 }
+	c := int(input[*pos] - 'a')
+	*valTy = ValType{a: *pos + 1, b: 2*(*pos) + 1}
+	*pos++
+	// inputs of even length: the lexer reads the LAST character together with the one before it and keeps it for the
+	// next call (a lexer with its own buffer: the position is at the end of the input while a token is still to come)
+	if len(input)%%2 == 0 && *pos == len(input)-1 { pend = int(input[*pos] - 'a'); pendPos = *pos; *pos++ }
+	return codeOf(c)
+}
 func Run(input string) (verdict string, log []int, val int, req int) {
-	Log = nil; Req = 0; Steps = 0; IsTrace = %s
+	Log = nil; Req = 0; Steps = 0; pend = -1; IsTrace = %s
 	defer func() {
 		if e := recover(); e != nil {
 			s := fmt.Sprint(e)
@@ -195,23 +220,37 @@ var Req = 0;
 var Steps = 0;
 var Errs :string[] = [];
 const codes = [%s];
+var pend = -1;
+var pendPos = 0;
+function codeOf(c :number) :number {
+	if (c < 0 || c >= codes.length) {
+		if ((c == 24 || c == 23) && codes.length > 0) { return Math.max(...codes) + 25 - c }
+		if (c == 22) { return 0 }
+		if (c == 21) { return -2 }
+		return 9999
+	}
+	return codes[c];
+}
 function GetToken(input :string, model:{ValType :ValType, pos :number}) :number {
 	Req++;
+	if (pend >= 0) {
+		let c = pend; pend = -1;
+		model.ValType = new ValType();
+		model.ValType.a = pendPos + 1;
+		model.ValType.b = 2*pendPos + 1;
+		return codeOf(c);
+	}
 	if (model.pos >= input.length) { return -1 }
 	let c = input.charCodeAt(model.pos) - 97;
 	model.ValType = new ValType();
 	model.ValType.a = model.pos + 1;
 	model.ValType.b = 2*model.pos + 1;
 	model.pos++;
-	if (c < 0 || c >= codes.length) {
-		if ((c == 24 || c == 23) && codes.length > 0) { return Math.max(...codes) + 25 - c }
-		if (c == 22) { return 0 }
-		return 9999
-	}
-	return codes[c];
+	if (input.length %% 2 == 0 && model.pos == input.length - 1) { pend = input.charCodeAt(model.pos) - 97; pendPos = model.pos; model.pos++ }
+	return codeOf(c);
 }
 function Run(input :string) {
-	Log = []; Req = 0; Steps = 0; Errs = [];
+	Log = []; Req = 0; Steps = 0; Errs = []; pend = -1;
 	const olderr = console.error;
 	console.error = (m :any) => { Errs.push(String(m)) };
 	try {
@@ -251,54 +290,57 @@ def _ints(s):
 
 
 def scrape(path, target):
+    """reads constants, tables, per-rule data and the translate switch out of a generated file; white space, optional
+    semicolons and type annotations may vary (a re-indented or re-commented template reads the same)"""
     txt = open(path, encoding="utf-8", errors="replace").read()
     d = {"text_len": len(txt)}
-    m = re.search(r"const ERROR_ACTION = (-?\d+)", txt)
+    cdecl = r"const\s+%s(?:\s+\w+|\s*:\s*\w+)?\s*=\s*(-?\d+)"
+    m = re.search(cdecl % "ERROR_ACTION", txt)
     d["err"] = int(m.group(1)) if m else None
-    m = re.search(r"const ACCEPT_ACTION = (-?\d+)", txt)
+    m = re.search(cdecl % "ACCEPT_ACTION", txt)
     d["acc"] = int(m.group(1)) if m else None
-    m = re.search(r"const NTERMINALS = (\d+)", txt)
+    m = re.search(cdecl % "NTERMINALS", txt)
     d["nterminals"] = int(m.group(1)) if m else None
-    d["consts"] = {a: int(b) for a, b in re.findall(r"^const (\w+) = (-?\d+)\s*$", txt, re.M)
+    d["consts"] = {a: int(b) for a, b in re.findall(r"^[ \t]*const\s+(\w+)(?:[ \t]+\w+|[ \t]*:[ \t]*\w+)?[ \t]*=[ \t]*(-?\d+)[ \t]*;?[ \t]*$", txt, re.M)
                    if a not in ("ERROR_ACTION", "ACCEPT_ACTION", "NTERMINALS")}
-    if "var StatePackAction" in txt:
+    if re.search(r"var\s+StatePackAction\b", txt):
         d["packed"] = True
         for key, name in (("act", "StatePackAction"), ("off", "StatePackOffset"), ("chk", "StackPackCheck"),
                           ("adef", "StackPackActDef"), ("gdef", "StackPackGotoDef")):
-            m = re.search(r"var %s = \[\]int \{([^}]*)\}" % name, txt)
+            m = re.search(r"var\s+%s\s*=\s*\[\]int\s*\{([^}]*)\}" % name, txt)
             d[key] = _ints(m.group(1)) if m else None
     else:
         d["packed"] = False
         if target == "go":
-            m = re.search(r"var StateActionArray = \[\]\[\]int\{\n(.*?)\n\}\nfunc", txt, re.S)
+            m = re.search(r"var\s+StateActionArray\s*=\s*\[\]\[\]int\s*\{(.*?)\n\}[ \t]*\n\s*func", txt, re.S)
             body = m.group(1) if m else ""
-            d["rows"] = [_ints(r) for _, r in re.findall(r"/\* (\d+) \*/ \{([^}]*)\},", body)]
+            d["rows"] = [_ints(r) for _, r in re.findall(r"/\*\s*(\d+)\s*\*/\s*\{([^}]*)\}\s*,", body)]
         else:
-            m = re.search(r"var StateActionArray :number\[\]\[\] =\[\n(.*?)\n\]\n", txt, re.S)
+            m = re.search(r"var\s+StateActionArray\s*:\s*number\[\]\[\]\s*=\s*\[(.*?)\n\][ \t]*;?[ \t]*\n", txt, re.S)
             body = m.group(1) if m else ""
-            d["rows"] = [_ints(r) for _, r in re.findall(r"/\* (\d+) \*/ \[([^\]]*)\],", body)]
+            d["rows"] = [_ints(r) for _, r in re.findall(r"/\*\s*(\d+)\s*\*/\s*\[([^\]]*)\]\s*,", body)]
     rules = {}
     if target == "go":
-        for m in re.finditer(r"case (\d+): \n\tdollarDolar\.YySymIndex = (\d+)\n\tDollar := [\w.]+\[topIndex-(\d+) : [\w.]+\]", txt):
+        for m in re.finditer(r"case\s+(\d+)\s*:\s*dollarDolar\.YySymIndex\s*=\s*(\d+)\s*Dollar\s*:=\s*[\w.]+\[\s*topIndex\s*-\s*(\d+)\s*:\s*[\w.]+\s*\]", txt):
             rules[int(m.group(1))] = {"lhs": int(m.group(2)), "base": int(m.group(3))}
-        pops = re.findall(r"\t(?:c\.)?PopStateSym\((\d+)\)\n", txt)
+        pops = re.findall(r"[ \t](?:c\.)?PopStateSym\((\d+)\)[ \t]*\n", txt)
     else:
-        for m in re.finditer(r"case (\d+): \{\n\tdollarDolar\.YySymIndex = (\d+)\n\tlet Dollar = StateSymStack\.slice\(topIndex-(\d+) , StackPointer\);", txt):
+        for m in re.finditer(r"case\s+(\d+)\s*:\s*\{\s*dollarDolar\.YySymIndex\s*=\s*(\d+)\s*;?\s*let\s+Dollar\s*=\s*StateSymStack\.slice\(\s*topIndex\s*-\s*(\d+)\s*,\s*StackPointer\s*\)", txt):
             rules[int(m.group(1))] = {"lhs": int(m.group(2)), "base": int(m.group(3))}
-        pops = re.findall(r"\tPopStateSym\((\d+)\);\n\tbreak;", txt)
+        pops = re.findall(r"[ \t]PopStateSym\((\d+)\)\s*;?\s*break\b", txt)
     for i, r in enumerate(sorted(rules)):
         rules[r]["pop"] = int(pops[i]) if i < len(pops) else None
     d["rules"] = rules
     tr = {}
     if target == "go":
-        m = re.search(r"func translate\(c int\) int \{(.*?)\n\treturn conv", txt, re.S)
+        m = re.search(r"func\s+translate\(\s*c\s+int\s*\)\s*int\s*\{(.*?)\n\s*return\s+conv", txt, re.S)
         body = m.group(1) if m else ""
-        for a, b in re.findall(r"case (-?\d+):\n \tconv = (\d+)", body):
+        for a, b in re.findall(r"case\s+(-?\d+)\s*:\s*conv\s*=\s*(\d+)", body):
             tr.setdefault(int(a), int(b))
     else:
-        m = re.search(r"function translate\(c :number\) :number \{(.*?)\n\treturn conv", txt, re.S)
+        m = re.search(r"function\s+translate\(\s*c\s*:\s*number\s*\)\s*:\s*number\s*\{(.*?)\n\s*return\s+conv", txt, re.S)
         body = m.group(1) if m else ""
-        for a, b in re.findall(r"case (-?\d+):\n \tconv = (\d+);", body):
+        for a, b in re.findall(r"case\s+(-?\d+)\s*:\s*conv\s*=\s*(\d+)\s*;?", body):
             tr.setdefault(int(a), int(b))
     d["translate"] = tr
     return d
@@ -317,11 +359,12 @@ def tok_map(xs, sc):
         codes.append(code)
     # letters 'x' (23) and 'y' (24): the codes just above the largest token code, through this file's own translate
     known = [c for c in codes if c is not None]
-    if known and len(out) < 22 and len(known) == len(codes):
+    if known and len(out) < 21 and len(known) == len(codes):
         out += [0] * (26 - len(out))
         out[24] = sc["translate"].get(max(known) + 1, 0)
         out[23] = sc["translate"].get(max(known) + 2, 0)
         out[22] = sc["translate"].get(0, 0)           # letter 'w' = code 0
+        out[21] = sc["translate"].get(-2, 0)          # letter 'v' = code -2
     return out
 
 
@@ -597,6 +640,7 @@ func GetToken(input string, valTy *ValType, pos *int) int {
 		// nonterminals); every other unknown letter is 9999
 		if (c == 24 || c == 23) && len(codes) > 0 { m := codes[0]; for _, v := range codes { if v > m { m = v } }; return m + 25 - c }
 		if c == 22 { return 0 } // 'w': the code 0 that example lexers return for an unknown character
+		if c == 21 { return -2 } // 'v': a negative code other than the end marker (e.g. a lexer's own error code)
 		return 9999
 	}
 	return codes[c]
@@ -839,9 +883,11 @@ import "os"
 %token <str> SUB
 %type <val> E Q
 %left '+'
+%left '*'
 %start E
 %%
 E : E '+' E { $$ = $1 + $3 }
+  | E '*' E { $$ = $1 * $3 }
   | NUM { $$ = $1 }
   | Q { $$ = $1 }
   | Q NUM { $$ = $1 * 1000 + $2 }
@@ -861,6 +907,9 @@ func GetToken(input string, valTy *ValType, pos *int) int {
 	case c == '+':
 		*pos++
 		return '+'
+	case c == '*':
+		*pos++
+		return '*'
 	case c == '{':
 		depth, i := 0, *pos
 		for ; i < len(input); i++ {
@@ -889,55 +938,68 @@ func main() {
 """
 
 NESTED_INPUTS = ["1+2", "{2}", "1+{2}", "100+{2+}", "1+{2}", "{1+{2}}", "7+{{3}+1}", "50+{{4+}+1}", "1+{2}", "{{1}+{2}}+3",
-                 "9+", "1+{2}", "{", "3+{4}+{5+{6}}", "100+{+}", "{1}+{2}", "{1+2}5", "4+{3}7", "{{2}9}1+{6}8", "{10}7+1"]
+                 "9+", "1+{2}", "{", "3+{4}+{5+{6}}", "100+{+}", "{1}+{2}", "{1+2}5", "4+{3}7", "{{2}9}1+{6}8", "{10}7+1",
+                 # the nested parse starts while the outer stack is LOWER than it has been before (after `2*3` was reduced)
+                 "1+2*3+{4}", "2*3*4+{1+1}", "1+2*{3}", "5*6+{7*{8}}+1", "1+2*3+{4+}", "2*{1+2}3+1"]
 
 
 def nested_expected(w):
-    """what NESTED_Y's parser must answer for input w: sums of numbers, `{…}` = twice the value of the
-    sub-string parsed by a nested parse; anything else is rejected"""
-    def expr(s):
-        # returns value or None
-        i, total, need = 0, 0, True
-        while i < len(s):
-            if need:
-                if s[i].isdigit():
-                    j = i
-                    while j < len(s) and s[j].isdigit():
-                        j += 1
-                    total += int(s[i:j]); i = j
-                elif s[i] == "{":
-                    depth, j = 0, i
-                    while j < len(s):
-                        if s[j] == "{":
-                            depth += 1
-                        if s[j] == "}":
-                            depth -= 1
-                            if depth == 0:
-                                break
-                        j += 1
-                    if j >= len(s):
-                        return None
-                    v = expr(s[i + 1:j])
-                    if v is None:
-                        return None
-                    i = j + 1
-                    if i < len(s) and s[i].isdigit():      # `{…}` directly followed by a number: Q NUM
-                        j = i
-                        while j < len(s) and s[j].isdigit():
-                            j += 1
-                        total += 2 * v * 1000 + int(s[i:j]); i = j
-                    else:
-                        total += 2 * v
-                else:
+    """what NESTED_Y's parser must answer for input w: sums and products of numbers (`*` binds tighter), `{…}` = twice
+    the value of the sub-string parsed by a nested parse, `{…}N` = that times 1000 plus N; anything else is rejected"""
+    def parse(s):
+        pos = [0]
+
+        def num():
+            j = pos[0]
+            while j < len(s) and s[j].isdigit():
+                j += 1
+            if j == pos[0]:
+                return None
+            v = int(s[pos[0]:j])
+            pos[0] = j
+            return v
+
+        def atom():
+            if pos[0] < len(s) and s[pos[0]].isdigit():
+                return num()
+            if pos[0] < len(s) and s[pos[0]] == "{":
+                depth, j = 0, pos[0]
+                while j < len(s):
+                    if s[j] == "{":
+                        depth += 1
+                    if s[j] == "}":
+                        depth -= 1
+                        if depth == 0:
+                            break
+                    j += 1
+                if j >= len(s):
                     return None
-                need = False
-            else:
-                if s[i] != "+":
+                v = parse(s[pos[0] + 1:j])
+                if v is None:
                     return None
-                i += 1
-                need = True
-        return None if need else total
-    v = expr(w)
+                pos[0] = j + 1
+                if pos[0] < len(s) and s[pos[0]].isdigit():      # `{…}` directly followed by a number: Q NUM
+                    return 2 * v * 1000 + num()
+                return 2 * v
+            return None
+
+        def term():
+            v = atom()
+            while v is not None and pos[0] < len(s) and s[pos[0]] == "*":
+                pos[0] += 1
+                r = atom()
+                v = None if r is None else v * r
+            return v
+
+        v = term()
+        while v is not None and pos[0] < len(s) and s[pos[0]] == "+":
+            pos[0] += 1
+            r = term()
+            v = None if r is None else v + r
+        if v is None or pos[0] != len(s):
+            return None
+        return v
+    v = parse(w)
     return "reject" if v is None else "accept %d" % v
 
 
@@ -958,7 +1020,7 @@ def nested_variant(obj, counter):
     return y
 
 
-def run_c15_nested(rng, with_expected=False):
+def run_c15_nested(rng, with_expected=False, solo_out=None):
     """Grammars whose action parses a sub-string with a nested parse: the package-global form through
     PushContex / ParserInit / Parser / PopContex, the -o form through a second context; also with a lexer
     that keeps a counter in the value cell.  A history of such parses, some failing inside the nested
@@ -994,6 +1056,8 @@ def run_c15_nested(rng, with_expected=False):
         for w in sorted(set(hist)):
             o = go([w])
             solo[w] = o[0] if o else None
+        if solo_out is not None:
+            solo_out[label] = dict(solo)
         got = go(hist)
         evals += len(hist)
         if len(got) != len(hist):
